@@ -561,7 +561,10 @@ def run(rep, tier, seed, replay=None):
                 rep.violation('C07: the loop model replayed in binary64 on the recorded length(0,.) table %s (implementation: %s, t=%r)'
                               % ('exits differently' if c == 1 else 'returns a different t', oc, t),
                               {'kind': 'ilength', 'curve': desc_json(desc), 's': common.fhex(s), 'L': common.fhex(L),
-                               'outcome': oc, 't': t, 'model': 'exit' if c == 1 else 't'},
+                               'outcome': oc, 't': t, 'model': 'exit' if c == 1 else 't',
+                               'note': 'correspondence (bit-exact loop model) no longer holds on this call; the property '
+                                       'itself is judged separately on every call (keys ilength-inverse-*)'},
+                              found_input=False,
                               key='ilength-model-exit' if c == 1 else 'ilength-model-t')
         rep.cov['evaluations'] = evals
         rep.cov['traces_validated_against_impl'] = agree
